@@ -40,6 +40,8 @@ def run(repo: Repo, rep, tier: str):
     slot_index_rule(repo, rep, "C16")
     legacy_upgrade_rule(repo, rep, "C16")
     sampler_chunk_numbers(repo, rep, "C16")
+    from . import c05
+    c05.writer_purity(repo, rep, "C16", "R6", "modules/sampler.py", 20)
 
 
 def _sampler(repo: Repo):
@@ -172,6 +174,12 @@ def instrument_record(repo: Repo, rep, P: str, tables):
                           f"{rel}:{r.node.lineno}")
         # field agreement for directly stored attributes
         wf, rf = _field(w.expr), _field(r.expr)
+        if rf in ("", "_") and re.match(r"^[a-z]\w*\.[a-z_]", wf):
+            ok = False
+            rep.violation(f"{P}.R1", rcon, text,
+                          f"slot {i} `{name}` carries `{wf}` in every written record, but the reader discards it "
+                          f"({r.method}); instruments whose only copy of this data is this slot (the legacy layout) lose it on load",
+                          f"{rel}:{r.node.lineno}")
         if rf.startswith("self.") and "(" not in wf and wf.startswith("self."):
             if wf.split("[")[0] != rf.split("[")[0]:
                 ok = False
@@ -822,6 +830,9 @@ def envelope_chunk(repo: Repo, rep, P: str, tables):
         e2 = BitEval(repo, env, {sp: word})
         e2.run(stmts_of(s))
         bad = [k for k in ("enable", "sustain", "loop") if bits.low_bits_of_single_term(e2.env.get(f"self.{k}", BV.const(0))) != (k, 1)]
+        foreign = sorted(word.deps() - {"enable", "sustain", "loop"})
+        if foreign:
+            raise Unsupported(f"packed flags depend on terms that are not flags: {foreign}")
         if not bad and not any(bits.is_top(l) for l in word.lanes):
             rep.ok(f"{P}.R3", f"{rel}:Sampler.Envelope.bitmask", f"{word.show(4)}", "enable/sustain/loop pack and unpack as bits 0/1/2")
         else:
